@@ -57,6 +57,8 @@ FAULT_CLASSES = {
     "RecursionError": RecursionError,
     "MemoryError": MemoryError,
     "AssertionError": AssertionError,
+    "KeyError": KeyError,
+    "AttributeError": AttributeError,
     "CancelledError": asyncio.CancelledError,
 }
 
@@ -797,7 +799,18 @@ class World:
     def _build_func(self, fs):
         run = self.run
         name = fs["name"]
-        if fs.get("async"):
+        if fs.get("kwargs"):
+            if fs.get("async"):
+
+                async def raw(t, **kwargs):
+                    return await run.abody()
+
+            else:
+
+                def raw(t, **kwargs):
+                    return run.body()
+
+        elif fs.get("async"):
 
             async def raw(t):
                 return await run.abody()
@@ -899,6 +912,18 @@ class World:
         run.idmap[id(raw)] = owner
         return self._decorate(raw, owner, ispec)
 
+    def _builtin_root(self, cname):
+        seen = set()
+        while cname and cname not in seen:
+            seen.add(cname)
+            cs = self.cspec.get(cname)
+            if cs is None:
+                return False
+            if cs.get("builtin"):
+                return True
+            cname = cs.get("base")
+        return False
+
     def _spec_has_init(self, cname):
         seen = set()
         todo = [cname]
@@ -926,7 +951,10 @@ class World:
             bases.append(base_cls)
         for b2 in cs.get("bases2", ()):
             bases.append(self.classes[b2])
-        if cs.get("dbc", True) and not any(isinstance(b, icontract.DBCMeta) for b in bases):
+        if cs.get("builtin") == "list" and not bases:
+            bases.append(list)  # a contract class deriving from a built-in with its own (slot-wrapper) __init__
+        meta_only = bool(cs.get("meta_only")) and not [b for b in bases if b is not list]  # ``class K(metaclass=icontract.DBCMeta)`` without the DBC base
+        if cs.get("dbc", True) and not meta_only and not any(isinstance(b, icontract.DBCMeta) for b in bases):
             bases.append(icontract.DBC)
         pyname = cs.get("pyname", cname)  # several generated classes may deliberately share one Python name
         ns = {"__qualname__": pyname, "__module__": "verif_world"}
@@ -951,15 +979,25 @@ class World:
             self._flags.update(flags)
 
         ns["_poke"] = _poke
-        cls = type(bases[0])(pyname, tuple(bases), ns) if bases else type(pyname, (), ns)
+        if meta_only:
+            cls = icontract.DBCMeta(pyname, tuple(bases), ns)
+        else:
+            cls = type(bases[0])(pyname, tuple(bases), ns) if bases else type(pyname, (), ns)
         # invariants: decorator nearest the class first
         for i, inv in enumerate(cs.get("invs", ())):
             sid = "%s/inv%d" % (cname, i)
 
             # the condition must take exactly ``self``
-            def mk(_sid):
-                def c(self):
-                    return run.hit(_sid, "inv", self)
+            def mk(_sid, _content=inv.get("content")):
+                if _content == "le2":
+
+                    def c(self):
+                        return run.hit(_sid, "inv", self) and len(self) <= 2
+
+                else:
+
+                    def c(self):
+                        return run.hit(_sid, "inv", self)
 
                 c.__name__ = "i_" + _san(_sid)
                 return c
@@ -1037,10 +1075,24 @@ class World:
         if fn in self.funcs and op == "call" and td.get("obj") is None and td.get("cls") is None:
             f = self.funcs[fn]
             tx.info = self._info(f, None, "func")
+            kw = td.get("kw")
+            if kw:
+                return (lambda: f(t, **kw)), fn, None
             return (lambda: f(t)), fn, None
         if op == "new":
             cls = self.classes[td["cls"]]
             tx.info = self._info(cls.__dict__.get("__init__"), cls, "ctor")
+            if self._builtin_root(td["cls"]):
+                label = td.get("obj")
+                run = self.run
+
+                def mk():
+                    o = cls(list(range(td.get("content", 1))))
+                    if run.label_of(o) is None:
+                        run.register(o, label, td.get("flags"))
+                    return o
+
+                return mk, "%s.__init__" % td["cls"], label
             return (lambda: cls(t)), self.defining_unit(cls, "__init__"), td.get("obj")
         if td.get("cls") is not None and td.get("obj") is None:
             cls = self.classes[td["cls"]]
